@@ -15,6 +15,8 @@ type TreeJSON struct {
 	Eff      []EffJSON  `json:"eff"`
 	Ops      [][]string `json:"ops"`
 	Corrupt  []string   `json:"corrupt"`
+	V2       []bool     `json:"v2"`    // block carries v2 data
+	Valid    []bool     `json:"valid"` // whole chain genesis..block is valid
 }
 
 type EffJSON struct {
@@ -70,6 +72,8 @@ func (t *Tree) Abstract() (TreeJSON, *Names) {
 		tj.Cls = append(tj.Cls, nd.Cls)
 		tj.Ops = append(tj.Ops, append([]string{}, nd.Ops...))
 		tj.Corrupt = append(tj.Corrupt, nd.Corrupt)
+		tj.V2 = append(tj.V2, nd.Block.V2 != nil)
+		tj.Valid = append(tj.Valid, nd.ValidChain)
 		if int(nd.Height) > maxH {
 			maxH = int(nd.Height)
 		}
